@@ -74,6 +74,7 @@ func runOrder(c *Ctx, sc *ordScenario, script []int) []int {
 		s.Submit("final", cloneReq(q))
 	}
 	s.Drain(1, 100)
+	c.checkMessageClaims(s)
 	s.Close()
 	return widths
 }
